@@ -293,6 +293,24 @@ def _run_merge(desc):
                     sh.evaluations += 1
                     if nl >= 2 and npk > nl:
                         sh.nontrivial += 1
+                # history on ONE table: merge without scale, with scale, without again; every answer must be that of a fresh table and
+                # earlier answers must not change afterwards
+                t = P.pks_table(pk_props=props, glabel=lab, nlabel=nl, ipk=np.array([0, npk]))
+                fresh = {}
+                for key_, sf in (("a", None), ("b", scale)):
+                    tf = P.pks_table(pk_props=props, glabel=lab, nlabel=nl, ipk=np.array([0, npk]))
+                    fresh[key_] = {k_: np.array(v, float) for k_, v in tf.pk2dmerge(omega, dty, scale_factor=sf).items()}
+                first = t.pk2dmerge(omega, dty, scale_factor=None)
+                first_copy = {k_: np.array(v, float) for k_, v in first.items()}
+                second = t.pk2dmerge(omega, dty, scale_factor=scale)
+                third = t.pk2dmerge(omega, dty, scale_factor=None)
+                hc = {"kind": "merge", "labels": list(assign), "table": tables.index(tab), "scale": "history"}
+                for nm, got_, want_ in (("second(scale)", second, fresh["b"]), ("third(no scale)", third, fresh["a"]), ("first-after-later-calls", first, first_copy)):
+                    if any(not np.allclose(np.asarray(got_[k_], float), want_[k_], rtol=1e-12, atol=1e-12) for k_ in want_):
+                        sh.violation("pk2dmerge:repeated-call-on-one-table:%s" % nm, hc, {})
+                        break
+                sh.evaluations += 1
+                sh.nontrivial += 1
     sh.sample(case, limit=1)
     sh.outcomes.add("merge")
     return sh
